@@ -145,8 +145,8 @@ class Report:
             seen_known.add(o.key())
             lines.append(f"KNOWN-FINDING: property={self.prop} {k.get('what', o.detail)} [{o.key()}]")
         replay_paths = []
-        if fresh and rc == 0:
-            rc = 1
+        if fresh:
+            rc = 1  # a definite violation is reported as such even when another part of the analysis lost its anchor
         if fresh:
             if write:
                 os.makedirs(REPLAY_DIR, exist_ok=True)
